@@ -14,4 +14,10 @@ def parseInt! (s : String) : Int :=
 def takeNats (toks : List String) (n : Nat) : List Nat × List String :=
   ((toks.take n).map parseNat!, toks.drop n)
 
+/-- FNV-1a over a list of numbers, each fed as 8 little-endian bytes (same function in harness/src/out.rs) -/
+def fnvNats (xs : List Nat) : UInt64 :=
+  xs.foldl (fun h x =>
+    (List.range 8).foldl (fun h k =>
+      (h ^^^ ((x.toUInt64 >>> (8 * k).toUInt64) &&& 0xff)) * 0x100000001b3) h) 0xcbf29ce484222325
+
 end LMV.Driver
